@@ -178,6 +178,22 @@ func vsigtx(maxIn, maxOut, maxS int) *Tx {
 	return tx
 }
 
+// vlongScriptCode: optionally replaces the signed input's previous script by one whose length sits on
+// the one-byte / three-byte length-prefix boundary (symbolic first and last byte, concrete filler).
+func vlongScriptCode(tx *Tx, idx uint32) {
+	if idx >= uint32(len(tx.Inputs)) || !vnondetBool("long-scriptcode") {
+		return
+	}
+	n := []int{252, 253, 255, 256}[vnondetLen("scriptcode-len", 0, 1+2*vparam("SCBIG", 0))]
+	b := make([]byte, n)
+	for i := range b {
+		b[i] = 0x51
+	}
+	b[0], b[n-1] = vnondetU8("scriptcode-first"), vnondetU8("scriptcode-last")
+	s := bscriptScript(b)
+	tx.Inputs[idx].PreviousTxScript = &s
+}
+
 // C02: FORKID preimage and hash equal the specification for all 128 FORKID hash types.
 func VH_C02_Preimage() {
 	tx := vsigtx(vparam("IN", 2), vparam("OUT", 2), vparam("S", 1))
@@ -185,6 +201,7 @@ func VH_C02_Preimage() {
 	vassume(idx <= uint32(len(tx.Inputs)))
 	ht := sighash.Flag(vnondetU8("ht"))
 	vassume(ht&0x40 != 0)
+	vlongScriptCode(tx, idx)
 	if idx < uint32(len(tx.Inputs)) {
 		switch vnondetLen("missing", 0, 3) {
 		case 1:
@@ -228,6 +245,7 @@ func VH_C03_Legacy() {
 	vassume(idx < uint32(len(tx.Inputs)))
 	ht := sighash.Flag(vnondetU8("ht"))
 	vassume(ht&0x40 == 0)
+	vlongScriptCode(tx, idx)
 	if vnondetBool("unsigned") {
 		for _, in := range tx.Inputs {
 			in.UnlockingScript = nil
